@@ -51,6 +51,8 @@ pkt_st = st.one_of(
     st.tuples(st.integers(0, 6), text_nosep),
     st.tuples(st.integers(0, 6), container),
     st.tuples(st.just(4), st.binary(max_size=12)),
+    st.tuples(st.just(4), st.sampled_from([1023, 1024, 1025, 3073, 5000]).flatmap(
+        lambda n: st.binary(min_size=n, max_size=n))),
     st.tuples(st.just(4), st.sampled_from(['', 'b', 'bAAA', 'd=', '=', '%1e', '+', ' ', '&d=4x'])),
 )
 list_st = st.lists(pkt_st, min_size=0, max_size=20)
